@@ -196,11 +196,8 @@ impl<'a> GeneratorState<'a> {
                         self.carry_flag_ok = false;
                         Ok(ExprType::Y)
                     }
-                    ExprType::Y => {
-                        self.flags = FlagsState::Y;
-                        self.carry_flag_ok = false;
-                        Ok(ExprType::Y)
-                    }
+                    // Y = Y: nothing is emitted, so nothing changes (as for X = X)
+                    ExprType::Y => Ok(ExprType::Y),
                     ExprType::Nothing => Err(self
                         .compiler_state
                         .syntax_error("Can't assign void to variable", pos)),
